@@ -135,6 +135,9 @@ def add_run_stats(st, run, an, windows, label):
         st['windows'].append('|'.join(w))
     st['unknown_lines'] += an.unknown_lines
     st['boards'] += getattr(an, 'complete_boards', 0)
+    nb = len((run.scn or {}).get('boards') or ())
+    key = 'sessions_with_%s_boards' % (nb if nb < 5 else '5+')
+    st['extra'][key] = st['extra'].get(key, 0) + 1
 
 
 def finding_record(f, scn, sched, run, family='S1'):
